@@ -85,7 +85,13 @@ fn client_query_bytes(plan: &PlanB, qi: usize, cookies: &HashMap<usize, Vec<u8>>
             CookieSpec::FromQuery(i) => {
                 let mut c = e.client_cookie.to_vec();
                 if let Some(s) = cookies.get(i) {
-                    c.extend_from_slice(s);
+                    match &plan.cookie_mangle {
+                        Some((keep, app)) => {
+                            c.extend_from_slice(&s[..(*keep).min(s.len())]);
+                            c.extend_from_slice(app);
+                        }
+                        None => c.extend_from_slice(s),
+                    }
                 }
                 opts.push((10, c));
             }
@@ -484,6 +490,23 @@ pub async fn run_async(plan: Arc<PlanB>, opts: &ExecB) -> RunResult {
             ji += 1;
         }
         tokio::time::sleep_until(t0 + Duration::from_millis(q.at_ms)).await;
+        if let Some(off_ms) = q.ttl_boundary {
+            /* wait for the instant the cached entry for this key runs out (+/- offset) */
+            let target = {
+                let g = sh.lock().unwrap();
+                g.replies.iter().filter(|r| key_of(&plan.queries[r.qidx]) == key_of(q)).last().map(|rep| {
+                    let min_ttl = rep.msg.answer.iter().chain(rep.msg.authority.iter()).chain(rep.msg.additional.iter()).filter(|r| r.rtype != T_OPT).map(|r| r.ttl).min().unwrap_or(0);
+                    rep.handed_hi_ns as i64 + min_ttl as i64 * 1_000_000_000 + off_ms * 1_000_000
+                })
+            };
+            if let Some(t) = target {
+                let now = kernel.now_ns() as i64;
+                if t > now && t - now < 400_000_000_000 {
+                    tokio::time::sleep(Duration::from_nanos((t - now) as u64)).await;
+                    res.probe("C06.query_aimed_at_ttl_boundary");
+                }
+            }
+        }
         /* learn server cookies from what has come back so far */
         if let Some(EdnsSpec { cookie: CookieSpec::FromQuery(src), .. }) = &q.edns {
             if !cookies.contains_key(src) {
@@ -1032,6 +1055,13 @@ fn evaluate(plan: &PlanB, kernel: &Arc<Kernel>, sh: &Sh, sent_at_ns: &[u64], _en
         let learnt = plan.queries.first().map(|q| outs.iter().any(|o| matches!(&o.kind, OutKind::Udp { dst, data, .. } if dst.port() == q.src_port && decode(data).map(|d| d.msg.edns_options().iter().any(|(c, v)| *c == 10 && v.len() > 8)).unwrap_or(false)))).unwrap_or(false);
         if learnt {
             res.probe("C16.server_cookie_learnt");
+            res.probe(&format!("C16.cookie_case.{}", plan.cookie_case));
+            /* how much of the flood was actually held back (evidence that the bound bit) */
+            let asked = plan.queries.iter().filter(|q| q.flood && !q.exempt).count();
+            let answered: usize = plan.queries.iter().enumerate().filter(|(_, q)| q.flood && !q.exempt).map(|(i, _)| refused_per_query.get(&i).copied().unwrap_or(0).min(1)).sum();
+            if asked > answered {
+                res.probe("C16.invalid_cookie_flood_partly_unanswered");
+            }
         } else {
             res.observations.push("no server cookie was returned to the learning query".into());
         }
